@@ -189,7 +189,69 @@ def observe(ctx, inp):
                     nav = nav.name(st[1]) if st[0] == "n" else nav.index(st[1])
                 return nav.value()
             navs.append([enc_steps(path), observe_call(run, enc_jv)])
+        lo = _kept_parts(doc, lo)
     return [before, lo, enc_jv(inp.get("inst")), navs]
+
+
+def _kept_parts(doc, lo):
+    """An application may keep only a PART of a loaded schema (schema.properties["header"], an array's items) and let the rest
+    go.  Every reference inside the kept part must still lead where it led: for each of the first children of the root the
+    document is loaded afresh, that child alone is kept, everything else is dropped and collected, and the references inside
+    the child are asked again (bound or not, the type of what they lead to).  Where that differs from what the same references
+    said while the whole schema was alive, the load is reported as having left those references unbound."""
+    import gc
+    from stingray.schema_instance import SchemaMaker, ArraySchema, ObjectSchema, OneOfSchema, RefToSchema
+
+    def kids(s):
+        if isinstance(s, OneOfSchema):
+            return list(s.alternatives)
+        if isinstance(s, ArraySchema):
+            return [s.items]
+        if isinstance(s, ObjectSchema):
+            return list(s.properties.values())
+        return []
+
+    def refs_state(part):
+        out, seen, stack = [], set(), [part]
+        while stack:
+            s = stack.pop()
+            if id(s) in seen:
+                continue
+            seen.add(id(s))
+            if isinstance(s, RefToSchema):
+                r = s.ref_to
+                try:
+                    t = (0, None if r is None or isinstance(r, RefToSchema) else r.type)
+                except BaseException as ex:
+                    if isinstance(ex, (KeyboardInterrupt, SystemExit, MemoryError)):
+                        raise
+                    t = (1, type(ex).__name__)
+                out.append((r is None, t))
+            stack.extend(reversed(kids(s)))
+        return out
+
+    try:
+        n = len(kids(SchemaMaker.from_json(copy.deepcopy(doc))))
+    except BaseException as ex:
+        if isinstance(ex, (KeyboardInterrupt, SystemExit, MemoryError)):
+            raise
+        return lo
+    for i in range(min(n, 4)):
+        root = SchemaMaker.from_json(copy.deepcopy(doc))
+        part = kids(root)[i]
+        alive = refs_state(part)
+        del root
+        gc.collect()
+        if refs_state(part) != alive:
+            def mark(e):
+                cls, d, children, tgt = e
+                if cls == CLASSES["ObjectSchema"]:
+                    children = [[k, mark(c)] for k, c in children]
+                else:
+                    children = [mark(c) for c in children]
+                return [cls, d, children, [[3002]] if cls == CLASSES["RefToSchema"] else tgt]
+            return [0, mark(lo[1])]
+    return lo
 
 
 def describe(inp):
